@@ -24,7 +24,7 @@ MACLEN, BLK, ENCLEN, ENCLENCHK = 32, 16, 59, 66
 DELIM = "4242424242"
 
 MC_QUICK = ["auth", "authenc2", "two", "arrchk", "plain"]
-MC_THOROUGH = ["plain", "auth", "authenc", "chk", "two22", "arr", "arrchk", "authb", "enc", "arr2", "arrmix", "auth2f", "authenc2f", "smallbuf", "three"]
+MC_THOROUGH = ["plain", "auth", "authenc", "chk", "two22", "arr", "arrchk", "authb", "enc", "arr2", "arrmix", "auth2f", "authenc2f", "smallbuf", "three", "auth2f3", "authenc3k"]
 
 def B(x):
     return "TRUE" if x else "FALSE"
@@ -160,7 +160,7 @@ def run_generators(ck, tier, seed):
         if tier == "quick":
             f.write(gen_cfg("QuickModes", "GenVals2", ["cut1", "byte", "msg"], 5, 11, 4, seed))
         else:
-            f.write(gen_cfg("AllModes", "GenVals3", ["cut1", "cut2", "byte", "bytecut", "msg"], 1, 1, 1, seed, stride_c2=13, stride_bc=3))
+            f.write(gen_cfg("AllModes", "GenVals3", ["cut1", "cut2", "byte", "bytecut", "msg"], 1, 1, 1, seed, stride_c2=9, stride_bc=3))
     r = vlib.tlc("AioGen", cfgp, workers=6 if tier == "quick" else 12, timeout=900 if tier == "quick" else 3000, xmx="6g")
     name = "GEN_Aio_" + tier
     if r.error:
@@ -304,7 +304,7 @@ def run(tier, seed):
     compare_final(ck, sched, execsA)
     vlib.log("replay done at %.0fs" % (time.time() - ck.t0))
     # ---- 3. direction B: randomized exploration, recorded next to the validation of A
-    nexec = 192 if quick else 1920
+    nexec = 192 if quick else 2880
     chunks = 8 if quick else 16
     def rec(k):
         per = nexec // chunks
@@ -317,9 +317,9 @@ def run(tier, seed):
         for c in crashes:
             ck.violation(c[0], c[1], replay_obj=c[2])
     vlib.log("random recording done at %.0fs (%d executions)" % (time.time() - ck.t0, len(execsB)))
-    nA = validate(ck, "tlc", execsA, maxpar=8, runs=5 if quick else 16)
+    nA = validate(ck, "tlc", execsA, maxpar=8 if quick else 12, runs=5 if quick else 24)
     vlib.log("validation A done at %.0fs" % (time.time() - ck.t0))
-    nB = validate(ck, "rand", execsB, maxpar=8, runs=5 if quick else 16)
+    nB = validate(ck, "rand", execsB, maxpar=8 if quick else 12, runs=5 if quick else 24)
     vlib.log("validation B done at %.0fs" % (time.time() - ck.t0))
     ck.add_traces(nA + nB)
     ck.add_cases("replayed-tlc-behaviours", len(execsA),
@@ -362,15 +362,25 @@ def run(tier, seed):
     return ck.finish()
 
 def replay(path, seed):
+    """re-runs a violation artefact: a rejected log (.ndjson) is validated again; a behaviour (violation-N.json with a
+    schedule or a random seed/index) is executed again on the real classes, compared and validated"""
     ck = vlib.Check(PID, "quick", seed, "model_checking")
     if path.endswith(".json"):
-        obj = json.load(open(path))
-        x = obj["case"]["log"]
-        execs = [x]
+        case = json.load(open(path)).get("case") or {}
+        exe = vlib.build_driver("drv_aio", extra_src=["seam_rng.cc"])
+        if "schedule" in case:
+            execs, kept = run_schedules(ck, exe, [case["schedule"]])
+            compare_final(ck, kept, execs)
+        elif "random" in case:
+            execs, crashes = record_random(exe, case["random"]["seed"], case["random"]["index"], 1, "replay")
+            for c in crashes:
+                ck.violation(c[0], c[1], replay_obj=c[2])
+        else:
+            raise vlib.Infra("nothing to replay in %s" % path)
     else:
         execs = split_executions(path)
-    n = validate(ck, "replay", execs)
+    n = validate(ck, "replay", execs, runs=1)
     ck.add_traces(n)
-    ck.sample({"replayed": path})
+    ck.sample({"replayed": path, "executions": len(execs)})
     ck.cov["states"] = max(ck.cov["states"], 1); ck.cov["transitions"] = max(ck.cov["transitions"], 1)
     return ck.finish()
